@@ -17,7 +17,7 @@ PROPERTY = 'C15'
 LEVEL = 'exploration'
 BOOT = {'kernel': False}
 TIERS = {
-    'quick': {'runs': 64, 'budget_s': 120, 'shrink_runs': 40, 'opts': {'wall_timeout': 280, 'envs': 6}},
+    'quick': {'runs': 48, 'budget_s': 120, 'shrink_runs': 40, 'opts': {'wall_timeout': 280, 'envs': 6}},
     'thorough': {'runs': 900, 'budget_s': 1500, 'shrink_runs': 80, 'opts': {'wall_timeout': 400, 'envs': 12}},
 }
 RULE = ('each evaluation = one batch of generated packages (FlowIR and DSL 2.0; platforms, global/stage/platform variables, '
@@ -94,6 +94,23 @@ def gen_flowir_package(rr, idx):
         if wa:
             c['workflowAttributes'] = wa
         doc['components'].append(c)
+    # inherited settings: blueprints (default/platform, global/stage scope) and per-platform overrides of a component
+    if rr.random() < 0.5:
+        bp = {}
+        if rr.random() < 0.6:
+            bp.setdefault('default', {})['global'] = {'resourceManager': {'config': {'walltime': rr.choice([30.0, 90.0])}}}
+        if rr.random() < 0.5:
+            bp.setdefault('default', {}).setdefault('stages', {})[nstages - 1] = {
+                'workflowAttributes': {'repeatInterval': rr.choice([5, 7])}}
+        if 'px' in platforms and rr.random() < 0.6:
+            bp['px'] = {'global': {'resourceManager': {'config': {'walltime': 480.0}}}}
+        if bp:
+            doc['blueprint'] = bp
+    for c in doc['components']:
+        if 'px' in platforms and rr.random() < 0.3:
+            c['override'] = {'px': {'variables': {'cv': 'px-%s' % c['variables']['cv']}}}
+            if rr.random() < 0.5:
+                c['override']['px']['workflowAttributes'] = {'repeatInterval': 9}
     nfiles = rr.choice([0, 1, 2, 3, 4])
     vfiles = []
     for f in range(nfiles):
